@@ -67,6 +67,15 @@ var provTemplates = []struct {
 	{"typed-arg", "typed(%s)", true}, {"to-go-string", "import(\"strings\").ToUpper(%s)", false},
 	{"var-then-neg", "var t = %s\n-t", true}, {"var-then-index", "var t = %s\nt[0]", true},
 	{"forin-elem-neg", "for t in [%s] { probe(-t) }", true},
+	// the value bound to a variable by every kind of binding, then used as a bare identifier operand
+	{"param-add", "func(p) { return p + p }(%s)", true}, {"param-mul", "func(p) { return p * 2 }(%s)", true}, {"param-sub", "func(p) { return p - 1 }(%s)", true},
+	{"param-concat", "func(p) { return p + \"s\" }(%s)", true}, {"param-repeat", "func(p) { return \"ab\" * p }(%s)", true}, {"param-append", "func(p) { return p + 3 }(%s)", true},
+	{"param-div", "func(p) { return p / 2 }(%s)", true}, {"param-lt", "func(p) { return p < 2 }(%s)", true}, {"param-index", "func(p) { return [5, 6][p] }(%s)", true},
+	{"param5-add", "func(p, a, b, c, d) { return p + p }(%s, 1, 2, 3, 4)", true}, {"variadic-add", "func(r...) { t = r[0]; return t + t }(%s)", true},
+	{"var-add", "var t = %s\nt + t", true}, {"var-mul", "var t = %s\nt * 2", true}, {"var-sub", "var t = %s\n1 - t", true}, {"var-concat", "var t = %s\n\"s\" + t", true},
+	{"multi-add", "t, u = func() { return %s, 1 }()\nt + t", true}, {"multi-mul", "t, u = [%s, 1]\nt * 2", true}, {"multi-var-add", "var t, u = [%s, 1]\nt + t", true},
+	{"forin-map-add", "for k, t in {\"k\": %s} { probe(t + t); probe(t * 2) }", false},
+	{"forin-list-add", "for t in [%s] { probe(t + t); probe(t * 2); probe(t - 1) }", true},
 }
 
 func provValues() map[string]interface{} {
@@ -144,6 +153,9 @@ func streamProv(o *Out, r *rand.Rand, n int, thorough bool) {
 				continue
 			}
 			want := outcome(base)
+			if t.name == "var-concat" && (vn == "vchan" || vn == "vptr" || vn == "vgofn" || vn == "vfn") {
+				continue // the text of a channel / pointer / function is its address: differs from run to run
+			}
 			if base.panicked {
 				o.Fail(Failure{Oracle: "no-panic", Key: "prov-panic:" + t.name + "/" + vn, Input: baseSrc, Detail: want})
 			}
